@@ -414,6 +414,16 @@ func GenHistory(r *Rng, cfg GenCfg) []Op {
 					}
 					ops = append(ops, Op{K: "flush"}, Op{K: "names"}, Op{K: "reopen"}, Op{K: "names"})
 				}
+				if cfg.FileBacked && cfg.CmpMode == 1 && g.colls[nm] && g.cmpOf[nm] != 0 && r.Chance(1, 2) {
+					// a collection with its own key order that is EMPTY when the file is loaded: removed, re-created, flushed,
+					// re-opened; the items set afterwards must be ordered by the comparator supplied at load time
+					ops = append(ops, Op{K: "rmcoll", Name: nm}, Op{K: "coll", Name: nm, N: g.cmpOf[nm]}, Op{K: "flush"}, Op{K: "reopen"})
+					delete(g.shadow, nm)
+					for j := 0; j < 4; j++ {
+						ops = append(ops, Op{K: "set", Name: nm, Key: g.key(), Val: genVal(r, false), Prio: g.prio()})
+					}
+					ops = append(ops, Op{K: "asc", Name: nm, Key: []byte{}, WV: true, N: -1}, Op{K: "min", Name: nm, WV: false}, Op{K: "max", Name: nm, WV: false})
+				}
 			}
 		case x < 94:
 			if cfg.Revert && cfg.FileBacked && r.Chance(1, 3) {
